@@ -195,7 +195,7 @@ def model_line(t, ix, cfg):
         nfr = s['shape'][3]
         return f"ecat {mm} {lst(s['shape'][:3])} {nfr} {s['w']} {lst(range(nfr))} 3 {ixs}"
     if k == 'minc':
-        return f"minc {lst(s['shape'])} {s['nscales']} {ixs}"
+        return f"minc {lst(s['shape'])} {s['nscales']} {int(bool(s.get('isfloat')))} {ixs}"
     raise ValueError(k)
 
 
@@ -210,7 +210,7 @@ def model_values(t, res):
     f = np.array([int(x) for x in fl[1:-1].split(',') if x], dtype=np.int64)
     s = t.spec
     raw = np.asarray(s['raw'])
-    if s['kind'] == 'minc':
+    if s['kind'] == 'minc' and not s.get('isfloat'):
         raw = np.clip(raw, *L.MINC_VR)      # _normalize clips to valid_range (part of MINC's `scale`)
     if s['kind'] == 'ecat':
         m = int(np.prod(s['shape'][:3]))
@@ -218,7 +218,7 @@ def model_values(t, res):
     if 'model_full' in s:         # bit-exact targets: values come from the Flocq model of the arithmetic (ModelS.v)
         return ('ok', shape, s['model_full'][e])
     if s['slopes'] is None:
-        if len(f) and not np.all(f == (-1 if s['kind'] == 'afni' else 0)):
+        if len(f) and not np.all(f == (-1 if s['kind'] in ('afni', 'minc') else 0)):
             return ('ok', shape, None)
         return ('ok', shape, raw[e])
     if len(f) and (f.min() < 0 or f.max() >= len(s['slopes'])):
@@ -741,10 +741,19 @@ def _run(chk, R, W, rng, nib, EcatImage):
     from nibabel.minc1 import Minc1Image
     from nibabel.minc2 import Minc2Image
     mi = 0
-    for shape, ns in [((3, 2, 4), 0), ((2, 3, 4), 1), ((3, 2, 3), 2), ((2, 3, 2, 3), 1), ((3, 2, 2, 2), 2)][:chk.n(5, 5)]:
+    for shape, ns, fl_ in [((3, 2, 4), 0, 0), ((2, 3, 4), 1, 0), ((3, 2, 3), 2, 0), ((2, 3, 2, 3), 1, 0), ((3, 2, 2, 2), 2, 0),
+                           ((2, 3, 2), 1, 1), ((3, 2, 2), 0, 1)]:
         for ver in (1, 2):
             pth = os.path.join(W, f'minc{ver}_{mi}.mnc')
-            _, _, spec = (L.write_minc1 if ver == 1 else L.write_minc2)(pth, shape, ns, salt=mi)
+            if fl_:                  # float-typed image (returned unscaled): arbitrary finite float bit patterns
+                fraw = rand_raw(rng, ['f4', 'f8'][mi % 2], int(np.prod(shape)))
+                if ver == 1:
+                    _, _, spec = L.write_minc1(pth, shape, ns, raw=fraw, code=['f', 'd'][mi % 2])
+                else:
+                    _, _, spec = L.write_minc2(pth, shape, ns, dtype=['<f4', '<f8'][mi % 2], raw=fraw)
+                spec['model_full'] = np.asarray(spec['raw']).astype(np.dtype(spec['dtype']).newbyteorder('='))   # bit-level: the data as read
+            else:
+                _, _, spec = (L.write_minc1 if ver == 1 else L.write_minc2)(pth, shape, ns, salt=mi)
             klass = Minc1Image if ver == 1 else Minc2Image
             paths = {'plain': pth}
             comps = ('plain',)
@@ -855,12 +864,13 @@ UNPROVED = [
     'mmap-independence of np.asarray(proxy) for a RANK-0 proxy (shape ()): REFUTED (C03_mmap_rank0_refuted; array_from_file '
     'keeps its len(shape)==0 early return); no image format yields rank 0, proved for rank >= 1 incl. zero-length axes as '
     'C03_mmap_independent_partial',
-    'MINC at the bit level: modelled and compared bit for bit for INTEGER images with float64 image-min/-max and valid_range '
-    '(ModelS.minc_elem: clip, slope=(max-min)/(dmax-dmin), *=, +=); float-typed MINC images (returned unscaled) and float32 '
-    'image-min/-max variables are not; the index-level MINC theorem keeps the abstract `scale`, and the bit-level theorem '
-    'C03_scaled_partial_read_bitexact is stated for the generic ArrayProxy (the other proxies\' element formulas afni_elem / '
-    'parrec_elem / ecat_elem / minc_elem are instances of the abstract `scale` of their index-level theorems, tied by the '
-    'bit-level correspondence, not restated as separate theorems)',
+    'MINC at the bit level: integer images with float64 image-min/-max and valid_range (ModelS.minc_elem; C03_minc_bitexact) and '
+    'float-typed images (returned as read; C03_getitem_eq_index_minc_float) are modelled, proved and compared bit for bit; float32 '
+    'image-min/-max variables and valid_min/valid_max attributes instead of valid_range are not',
+    'the per-proxy bit-level theorems (C03_afni_bitexact, C03_parrec_bitexact + C03_parrec_raw_is_record, C03_ecat_bitexact, '
+    'C03_minc_bitexact) take the per-slab factor VALUES as given lists: how the headers produce them (AFNI BRICK_FLOAT_FACS with 0 -> 1, '
+    'PAR dv/fp formulas, ECAT calibration*frame factor fields) is computed by the harness from the file and tied by the bit-level '
+    'correspondence only',
     'non-finite scale factors (NaN/inf slope or intercept: the headers map them to "no scaling" before the proxy sees them), '
     'requested dtypes other than float32/float64 (np.asarray(proxy, dtype=int...)), float16 and longdouble ON-DISK dtypes, and '
     'NaN payload/sign bits of results are outside the bit-level model and its correspondence (raw float data are finite)',
